@@ -337,3 +337,18 @@ def _join_routes():
 _join_routes()
 
 NAMES = sorted(ROUTES)
+
+# ---- the same entry points fed with an instance of a str subclass ---------------------------------------------------
+# (multidict.istr, str-mixin enums, markupsafe strings ... are all "str" for the documented argument types)
+NAMES_SUB = []
+for _n in NAMES:
+    _r = ROUTES[_n]
+    if "strsub" in _n:
+        continue
+
+    def _mk_sub(r):
+        def fn(w):
+            return r.fn(_Sub(w))
+        return fn
+    ROUTES[_n + "~sub"] = Route(_n + "~sub", _mk_sub(_r), _r.supplied, _r.kind)
+    NAMES_SUB.append(_n + "~sub")
